@@ -155,11 +155,36 @@ def _cfg_fallback_rule(ctx, q):
     from ..genloop import NotASearchLoop, search_loop
     cf = ctx.cfn(q, subst=False)
     tries = [s_ for s_ in cf.body if isinstance(s_, ast.Try)]
-    if len(tries) != 1 or len(tries[0].handlers) != 1:
-        return False, "expected one try with one handler"
-    tr = tries[0]
-    prefix = [s_ for s_ in cf.body[: cf.body.index(tr)] if isinstance(s_, (ast.Assign, ast.AnnAssign))]
-    hb = list(tr.handlers[0].body)
+    if len(tries) == 1 and len(tries[0].handlers) == 1:
+        tr = tries[0]
+        prefix = [s_ for s_ in cf.body[: cf.body.index(tr)] if isinstance(s_, (ast.Assign, ast.AnnAssign))]
+        hb = list(tr.handlers[0].body)
+    else:
+        # the ordinary wiring with a hook for "no sibling ancestor": as the block runs it (base method and overridden hook seen through),
+        # the fallback is the branch taken when the sibling-ancestor is None
+        cf = ctx.cfn(q, subst=False, supers=True)
+        from ..tmpl import T as _T, tmatch as _tm
+        branch = None
+        for i_, s_ in enumerate(cf.body):
+            if isinstance(s_, ast.If) and s_.orelse:
+                e_ = _tm(s_.test, _T("L_a is not None")) or _tm(s_.test, _T("L_a is None"))
+                bound_ = {u(x.targets[0]): u(x.value) for x in cf.body[:i_] if isinstance(x, ast.Assign) and isinstance(x.targets[0], ast.Name)}
+                if e_ is not None and bound_.get(e_["L_a"], "").startswith("_ancestral_sibling("):
+                    branch = (i_, s_.orelse if "is not None" in u(s_.test) else s_.body)
+        if branch is None:
+            return False, "neither a NoSiblingAncestor handler nor a branch for a missing sibling-ancestor was found"
+        prefix = [s_ for s_ in cf.body[: branch[0]] if isinstance(s_, (ast.Assign, ast.AnnAssign))]
+        hb = list(branch[1])
+        # (the refusal raised and caught on the spot, to chain NotInSameCfg from it: the handler is the fallback)
+        if len(hb) == 1 and isinstance(hb[0], ast.Try) and len(hb[0].handlers) == 1 and len(hb[0].body) == 1 and isinstance(hb[0].body[0], ast.Raise) \
+                and "NoSiblingAncestor" in u(hb[0].body[0]) and "NoSiblingAncestor" in u(hb[0].handlers[0].type):
+            hb = list(hb[0].handlers[0].body)
+        # the link shared with the ordinary branch, after the choice
+        hb = hb + [s_ for s_ in cf.body[branch[0] + 1:] if any(isinstance(n, ast.Call) and call_name(n) == "add_link" for n in ast.walk(s_))]
+        other = cf.body[branch[0]].body if branch[1] is cf.body[branch[0]].orelse else cf.body[branch[0]].orelse
+        if any(isinstance(n, ast.Call) and call_name(n) == "add_link" for s_ in other for n in ast.walk(s_)) and len(hb) and \
+                any(isinstance(n, ast.Call) and call_name(n) == "add_link" for s_ in cf.body[branch[0] + 1:] for n in ast.walk(s_)):
+            return False, "the link is added twice on the ordinary branch"
     # the link is added after the walk, nowhere else
     try:
         sl = search_loop(prefix + hb + [ast.Return(value=ast.Constant("linked_"))])
@@ -169,6 +194,14 @@ def _cfg_fallback_rule(ctx, q):
         return False, f"walk state {sorted(sl.names.values())}"
     init = u(sl.state["s0"])
     srcp = [a_.arg for a_ in cf.args.args][3] if len(cf.args.args) > 3 else "p"
+    # (locals of the prefix written out: the source port may have been named first)
+    from ..norm import _Subst as _Sb
+    import copy as _cp
+    env_ = {}
+    for x in prefix:
+        if isinstance(x, ast.Assign) and isinstance(x.targets[0], ast.Name):
+            env_[x.targets[0].id] = _Sb(dict(env_)).visit(_cp.deepcopy(x.value))
+    init = u(_Sb(dict(env_)).visit(_cp.deepcopy(sl.state["s0"])))
     # the state is the candidate container itself (starting at the source's parent), or the node below it (starting at the source)
     if init == f"self.hugr[{srcp}.out_port().node].parent":
         C = "s0"
@@ -261,6 +294,13 @@ def r1_guards(ctx) -> None:
     ps = ctx.paths(q)
     exc_tests = [u(t) for p in ps for t, k in p.tests if isinstance(t, ast.Call) and u(t.func) == "except_"]
     ok = bool(exc_tests) and set(exc_tests) == {"except_(NoSiblingAncestor)"}
+    if not exc_tests:
+        # no handler at all: the fallback is a hook of the base method, reached exactly where the base would refuse with NoSiblingAncestor
+        # (the sibling-ancestor is None): every path that walks to the CFG or refuses with NotInSameCfg has taken that branch
+        ps_b = ctx.paths(q, supers=True)
+        fb = [p for p in ps_b if (p.kind == "raise" and "NotInSameCfg" in p.value_text()) or any(isinstance(e_, ast.While) for e_ in p.effects)]
+        ok = bool(fb) and all(any((not k) and isinstance(t, ast.Compare) and isinstance(t.ops[0], ast.IsNot) and u(t.left).startswith("_ancestral_sibling(") for t, k in p.tests) for p in fb)
+        exc_tests = ["<hook for a missing sibling-ancestor>"] if ok else []
     ctx.check(ok, "C13.R1", "build.cfg.Block._wire_up_port: falls back only on NoSiblingAncestor", mod.path, fn.lineno,
               "the dominator-edge fallback may only catch NoSiblingAncestor from the ordinary wiring", fn, found=str(sorted(set(exc_tests))))
     if ok:
